@@ -311,11 +311,76 @@ def real_child_case(rng, res):
         res.fail("oracle", case, {"why": "temporary capture file left behind", "leftover": leftover})
 
 
+LIMIT_CHILD = r"""
+import sys, time
+sys.stdout.write('started\n'); sys.stdout.flush()
+time.sleep(float(sys.argv[1]))
+open(sys.argv[2], 'w').write('ran to its end')
+sys.exit(7)
+"""
+
+
+def limit_case(rng, res):
+    """The time limit as the public entry point hands it on: `in_toto_run(..., timeout=t)` with t = 0, 0.0 (limits like any
+    other: shorter than every run), a limit the command outlives, and one it does not; with and without stream
+    recording. A command that outlives its limit must be killed (it never reaches its last statement) and reported as
+    timed out; the model gives the same verdict for the schedule 'alive at the first poll, done after `dur` seconds'."""
+    import in_toto.runlib as rl
+    import time
+    limit, dur = rng.choice([(0, 0.6), (0.0, 0.6), (0, 0.6), (0.2, 0.9), (5, 0.1)])
+    streams = rng.random() < 0.5
+    tmp = tempfile.mkdtemp(prefix="verif-c13l-")
+    marker = os.path.join(tmp, "marker")
+    old_tmp, cwd = tempfile.tempdir, os.getcwd()
+    tempfile.tempdir = os.path.join(tmp, "t"); os.makedirs(tempfile.tempdir)
+    try:
+        os.chdir(tmp)
+        with contextlib.redirect_stdout(io.StringIO()), contextlib.redirect_stderr(io.StringIO()):
+            try:
+                md = rl.in_toto_run("limit", [], [], [sys.executable, "-c", LIMIT_CHILD, str(dur), marker],
+                                    record_streams=streams, timeout=limit)
+                bp = md.get_payload().byproducts
+                i = {"returned": [str(bp.get("return-value")), bp.get("stdout"), bp.get("stderr")]}
+            except subprocess.TimeoutExpired:
+                i = {"outcome": "TimeoutExpired"}
+            except Exception as e:  # pylint: disable=broad-except
+                i = {"outcome": type(e).__name__}
+        time.sleep(dur + 0.4 if "outcome" in i else 0)
+        ran_to_end = os.path.exists(marker)
+        leftover = sorted(os.listdir(tempfile.tempdir))
+    finally:
+        os.chdir(cwd)
+        tempfile.tempdir = old_tmp
+        shutil.rmtree(tmp, ignore_errors=True)
+    out = b"started\n"
+    # (the model's clock is integral: tenths of a second here)
+    L = int(round(limit * 10))
+    sched = [Ev(out, b"", None, L + 1), Ev(b"", b"", 7, L + 2)] if dur > limit else [Ev(out, b"", None, 0), Ev(b"", b"", 7, 1)]
+    m = core.driver().call({"op": "streams", "N": 8192, "timeout": L, "sched": [e.as_json() for e in sched]})
+    m = {k: v for k, v in m.items() if k in ("returned", "outcome")}
+    if not streams and "returned" in m:
+        m = {"returned": [m["returned"][0], "", ""]}
+    agreed = i == m
+    case = {"op": "limit", "limit": limit, "runs_for": dur, "record_streams": streams}
+    res.case({"family": "limit", "limit": repr(limit), "runs_for": dur, "streams": streams, "impl": summarise(i)}, True, agreed, sample_cap=2)
+    res.count("family_limit_%r" % (limit,))
+    if not agreed:
+        res.fail("disagree", case, {"op": "streams", "impl": summarise(i), "model": summarise(m)})
+    if limit < dur and (i.get("outcome") != "TimeoutExpired" or ran_to_end):
+        res.fail("oracle", case, {"why": "a command that outlives its time limit (%r s, the command runs %r s) was %s" % (
+            limit, dur, "not killed: it ran to its end" if ran_to_end else "not reported as timed out"), "impl": summarise(i)})
+    if limit > dur and i.get("returned", [None])[0] != "7":
+        res.fail("oracle", case, {"why": "a command that ends within its time limit was not recorded with its exit status", "impl": summarise(i)})
+    if leftover:
+        res.fail("oracle", case, {"why": "temporary capture file left behind", "leftover": leftover})
+
+
 def shard_real(seed, idx, n):
     res = core.Result()
     rng = core.rng_for(seed, "c13", "real", idx)
     for _ in range(n):
         real_child_case(rng, res)
+    limit_case(rng, res)
     return res
 
 
@@ -334,6 +399,12 @@ def run(tier, seed):
 
 
 def replay(case):
+    if case.get("op") == "limit":
+        import random
+        res = core.Result()
+        for k in range(40):
+            limit_case(random.Random(k), res)
+        return {"failures_on_replay": [f for f in res.failures if f["case"] == case][:3]}
     if case.get("op") == "real_child":
         import json as _json
         import in_toto.runlib as rl
